@@ -390,7 +390,6 @@ func (conn *Conn) internalConnect(ctx context.Context) error {
 	defer conn.mu.Unlock()
 	vhook("conn.lock", conn)
 	defer vhook("conn.unlock", conn)
-	conn.initialise()
 
 	if conn.cfg.Server == "" {
 		vhook("conn.refused", conn, "noserver")
@@ -400,6 +399,7 @@ func (conn *Conn) internalConnect(ctx context.Context) error {
 		vhook("conn.refused", conn, "connected")
 		return fmt.Errorf("irc.Connect(): Cannot connect to %s, already connected.", conn.cfg.Server)
 	}
+	conn.initialise()
 
 	if !hasPort(conn.cfg.Server) {
 		if conn.cfg.SSL {
